@@ -312,6 +312,49 @@ fn attack_point(
             }
         }
     }
+    // c6: a fabricated seek section grafted onto an honest proof: a short chain that names a tree
+    // node the replica already stores (leaf of a held block, its sibling or parent) with a wrong size
+    // and/or hash. If it is stored without being verified, later reads of held blocks go wrong.
+    if pp.seek.is_none() {
+        let mut targets: Vec<u64> = vec![];
+        for j in rm.held.iter().take(3) {
+            targets.push(2 * j);
+            targets.push(crate::reftree::sibling(2 * j));
+            targets.push(crate::reftree::parent(2 * j));
+        }
+        if let Some(b) = &pp.block {
+            targets.push(2 * b.index);
+            for nd in b.nodes.iter().take(2) {
+                targets.push(nd.index);
+            }
+        }
+        targets.sort();
+        targets.dedup();
+        let reft = crate::reftree::RefTree::from_blocks(&sim.wblocks);
+        for x in targets {
+            let Some(g) = reft.get(x).copied() else { continue };
+            for variant in 0..2u8 {
+                // NB: a ONE-node chain with the genuine hash and only the size changed is exactly the
+                // "size field of the bottom node of a seek section" that the statement excludes (nothing
+                // in the scheme covers it); it is not generated (counted as excluded).
+                let nodes = if variant == 0 {
+                    // two-node chain: the parent hash covers the sum of the sizes
+                    let Some(sib) = reft.get(crate::reftree::sibling(x)).copied() else { continue };
+                    vec![PNode { index: x, size: g.size + 1, hash: g.hash.to_vec() }, PNode { index: sib.index, size: sib.size, hash: sib.hash.to_vec() }]
+                } else {
+                    vec![PNode { index: x, size: g.size, hash: vec![0x6b; 32] }]
+                };
+                stats.excluded_unauthenticated += 1;
+                let mut q = pp.clone();
+                q.seek = Some(PSeek { bytes: 0, nodes });
+                n += 1;
+                local.evals += 1;
+                local.class("section_grafts");
+                local.nontrivial(&(hash_of(&pp), "graft-seek", x, variant));
+                attack_one(sim, &pt, &q.to_proof(), &format!("honest proof for {c:?} with a fabricated one-node seek section naming stored tree node {x} ({})", if variant == 0 { "two-node chain, bottom size + 1" } else { "one node, other hash" }), n, local, stats)?;
+            }
+        }
+    }
     // a hash section of an earlier honest proof grafted onto a block proof
     if pp.block.is_some() && pp.hash.is_none() {
         for old in earlier.iter().rev().filter(|p| p.hash.is_some()).take(2) {
